@@ -383,51 +383,86 @@ def finish(ctx, module, level, rule, assumptions, extra_cov=None):
     except Exception:
         pass
     more = []
-    for site, v in by_site.items():
-        if site.startswith("HARNESS/"):
-            continue
-        if len(reported) >= MAXREP and not [f for f in findings if f["site"] == site]:
-            more.append(site)       # a run with this many violating sites is not silent anyway; the rest is listed, not replayed
-            continue
-        # every candidate is re-executed twice on fresh objects before it is believed
-        try:
-            rp = {"shard-exception": replay_shard_exception, "shard-replay": replay_shard}.get(v["case"].get("kind"), module.replay)
-            r1 = rp(unfloat(v["case"]))
-            r2 = rp(unfloat(v["case"]))
-        except Exception as e:  # pragma: no cover
-            import traceback
-            ctx.harness_errors.append("replay of %s raised: %s" % (site, traceback.format_exc()[-800:]))
-            continue
-        s1 = sorted(x[0] for x in r1)
-        s2 = sorted(x[0] for x in r2)
-        if s1 == s2 and site not in s1 and "_shard" in v:
-            # not reproduced on the single case with full interference: the observation may depend on the pattern of object interference the
-            # explorer produced in that shard; re-run the shard (same pattern by construction), twice
-            sc = dict(v["_shard"], kind="shard-replay", pooled=False)
-            q1, q2 = replay_shard(sc), replay_shard(sc)
-            if site in [x[0] for x in q1] and site in [x[0] for x in q2]:
-                v = dict(v, case=sc, what=v["what"] + " [reproduced by re-running its shard, not by the single case: depends on other objects constructed in between]")
-                by_site[site] = v
-                s1 = s2 = [site]
-        if s1 != s2 or site not in s1:
-            ctx.harness_errors.append("non-reproducible observation at %s: explorer saw it, replays saw %s / %s"
-                                      % (site, s1, s2))
-            continue
-        known = [f for f in findings if f["site"] == site]
-        if known:
-            known_hit.append(site)
-            print("KNOWN-FINDING: property=%s %s [site %s, %d case(s)]" % (pid, known[0]["what"], site, res.nviol[site]))
-            continue
-        os.makedirs(out_dir, exist_ok=True)
-        path = os.path.join(out_dir, "%s-%s.json" % (site_slug(site), digest(v["case"])))
-        with open(path, "w") as f:
-            json.dump({"property": pid, "site": site, "what": v["what"], "count_this_run": res.nviol[site],
-                       "case": v["case"], "replay_cmd": "./check %s --replay %s" % (pid, os.path.relpath(path, OUT))},
-                      f, indent=1, sort_keys=True)
-        reported.append(site)
-        print("VIOLATION property=%s replay=%s" % (pid, path))
-        print("  site=%s count=%d :: %s" % (site, res.nviol[site], v["what"][:400]))
-        status = 1
+    queue = [(site, v) for site, v in by_site.items() if not site.startswith("HARNESS/")]
+    shard_cache = {}
+    while queue:
+        # candidates are judged in rounds so that the shard-level fallbacks of one round run in parallel, each shard once
+        room = max(MAXREP - len(reported), 0)
+        batch, rest = [], []
+        for site, v in queue:
+            if [f for f in findings if f["site"] == site] or len([b for b in batch if not b[2]]) < room:
+                batch.append((site, v, bool([f for f in findings if f["site"] == site])))
+            else:
+                rest.append((site, v))
+        if not batch:
+            more += [site for site, v in rest]
+            break
+        queue = rest
+        judged = []
+        for site, v, _k in batch:
+            # every candidate is re-executed twice on fresh objects before it is believed
+            try:
+                rp = {"shard-exception": replay_shard_exception, "shard-replay": replay_shard}.get(v["case"].get("kind"), module.replay)
+                key = digest(v["case"]) if v["case"].get("kind") in ("shard-exception", "shard-replay") else None
+                if key is not None and key in shard_cache:
+                    r1, r2 = shard_cache[key]
+                else:
+                    r1 = rp(unfloat(v["case"]))
+                    r2 = rp(unfloat(v["case"]))
+                    if key is not None:
+                        shard_cache[key] = (r1, r2)
+            except Exception as e:  # pragma: no cover
+                import traceback
+                ctx.harness_errors.append("replay of %s raised: %s" % (site, traceback.format_exc()[-800:]))
+                continue
+            judged.append((site, v, sorted(x[0] for x in r1), sorted(x[0] for x in r2)))
+        # not reproduced on the single case with full interference: the observation may depend on the pattern of object interference the
+        # explorer produced in that shard; re-run the shard (same pattern by construction), twice - every such shard once, in parallel
+        need = collections.OrderedDict()
+        for site, v, s1, s2 in judged:
+            if s1 == s2 and site not in s1 and "_shard" in v:
+                sc = dict(v["_shard"], kind="shard-replay", pooled=False)
+                if digest(sc) not in shard_cache:
+                    need[digest(sc)] = sc
+        if need:
+            jobs = [sc for sc in need.values() for _ in (0, 1)]
+            if len(need) == 1:
+                outs = [replay_shard(j) for j in jobs]
+            else:
+                with mp.get_context("fork").Pool(min(NCPU, len(jobs))) as pool:
+                    outs = pool.map(replay_shard, jobs, chunksize=1)
+            for i, k in enumerate(need):
+                shard_cache[k] = (outs[2 * i], outs[2 * i + 1])
+        for site, v, s1, s2 in judged:
+            if s1 == s2 and site not in s1 and "_shard" in v:
+                sc = dict(v["_shard"], kind="shard-replay", pooled=False)
+                q1, q2 = shard_cache[digest(sc)]
+                if site in [x[0] for x in q1] and site in [x[0] for x in q2]:
+                    v = dict(v, case=sc, what=v["what"] + " [reproduced by re-running its shard, not by the single case: depends on other objects constructed in between]")
+                    by_site[site] = v
+                    s1 = s2 = [site]
+            if s1 != s2 or site not in s1:
+                ctx.harness_errors.append("non-reproducible observation at %s: explorer saw it, replays saw %s / %s"
+                                          % (site, s1[:6], s2[:6]))
+                continue
+            known = [f for f in findings if f["site"] == site]
+            if known:
+                known_hit.append(site)
+                print("KNOWN-FINDING: property=%s %s [site %s, %d case(s)]" % (pid, known[0]["what"], site, res.nviol[site]))
+                continue
+            if len(reported) >= MAXREP:
+                more.append(site)
+                continue
+            os.makedirs(out_dir, exist_ok=True)
+            path = os.path.join(out_dir, "%s-%s.json" % (site_slug(site), digest(v["case"])))
+            with open(path, "w") as f:
+                json.dump({"property": pid, "site": site, "what": v["what"], "count_this_run": res.nviol[site],
+                           "case": v["case"], "replay_cmd": "./check %s --replay %s" % (pid, os.path.relpath(path, OUT))},
+                          f, indent=1, sort_keys=True)
+            reported.append(site)
+            print("VIOLATION property=%s replay=%s" % (pid, path))
+            print("  site=%s count=%d :: %s" % (site, res.nviol[site], v["what"][:400]))
+            status = 1
     if more:
         print("  ... and %d more violating sites (listed in the evidence file, not replayed)" % len(more))
     for e in ctx.harness_errors:
